@@ -37,7 +37,8 @@ class LoopSpec:
 class Contract:
     def __init__(self, target, schema, self_obj, params, cases, requires=None, modifies=(), loops=None, props=(),
                  must_fail=None, also=(), note='', self_rec=None, app_raises=None, env_hook=None, trusted=False,
-                 summary=None, abstraction='', inline=(), thin=False, abstract_calls=()):
+                 summary=None, abstraction='', inline=(), thin=False, abstract_calls=(), closure_vars=None):
+        self.closure_vars = dict(closure_vars or {})   # free variables of a nested function (Class.method>name): name -> kind
         self.abstract_calls = tuple(abstract_calls)   # callees treated as arbitrary operations here: any state change within modifies, may raise any Exception
         self.thin = thin              # a thin wrapper whose contract speaks about the calls it makes: callers execute its body
         self.inline = set(inline)     # callees executed from their body here although they have a contract
@@ -405,8 +406,10 @@ def _verify_body(eng, contract, target, mod, cname, node, res, seed, timeout_ms,
             vars[pos[0]] = None   # filled below
         else:
             vars[pos[0]] = Obj(contract.self_obj)
-    if '>' in target and contract.self_obj is not None:
+    if '>' in target and contract.self_obj is not None and not is_method:
         vars['self'] = Obj(contract.self_obj)      # the closure's free variable
+    for cv_, ck_ in getattr(contract, 'closure_vars', {}).items():
+        vars[cv_] = make_param(eng, ctx, cv_, ck_)
     eng.current_node = node
     fid = ctx.new_id()
     ctx.frames[fid] = Frame(vars, None, contract.self_obj, (mod, cname), fn.name, mod)
@@ -426,6 +429,8 @@ def _verify_body(eng, contract, target, mod, cname, node, res, seed, timeout_ms,
         contract.env_hook(eng, ctx)
     pre = ctx.st
     args = {p: vars[p] for p in all_params}
+    for cv_ in getattr(contract, 'closure_vars', {}):
+        args[cv_] = vars[cv_]
     if is_method:
         args['self'] = vars[pos[0]]
     c0 = CallCtx(eng, ctx, pre, pre, args, self_obj=contract.self_obj)
